@@ -175,7 +175,7 @@ inline void yieldPoint()
     {
         target = pickOther(t_tid);
         // very fine-grained switching is kept to a budget of switches per run (each one is two futex calls)
-        g->nextSwitchAt = idx + (g->rep.switches < 20000 ? drawRun() : drawRun() + 50000);
+        g->nextSwitchAt = idx + (g->rep.switches < 4000 ? drawRun() : drawRun() + 50000);
     }
     if (target >= 0 && target < g->n && target != t_tid && !g->finished[target])
     {
